@@ -351,7 +351,41 @@ func c03Branches(c *core.Ctx) {
 	}
 }
 
+// c03Idents: names are a dimension of their own for a printer that decides where a blank is needed between
+// words: every identifier spelling of the family in every position a name takes in a programmatic tree.
+func c03Idents(c *core.Ctx) {
+	for ii, n := range gen.Identifiers() {
+		if !c.Mine(int64(ii)) || c.Tick() {
+			continue
+		}
+		id := func() *gen.Node { return gen.I(n) }
+		progs := [][]*gen.Node{
+			{gen.Let(n, gen.Bi("+", id(), gen.N("1")))},
+			{gen.Func(n, []string{n, "q"}, gen.Ret(id()))},
+			{gen.Ex(gen.As("=", id(), gen.F(n, []string{n}, gen.Ret(gen.U("-", id())))))},
+			{gen.Ex(gen.Ob(id(), id()))},
+			{gen.For(gen.LetExpr(n, gen.N("0")), gen.Bi("<", id(), gen.N("2")), gen.Po("++", id()), gen.Ex(gen.Ca(id(), id())))},
+			{gen.If(id(), gen.Ret(id()), gen.Ex(gen.U("!", id())))},
+			{gen.Ex(gen.Do(gen.Do(id(), n), n)), gen.Ex(gen.U("++", id()))},
+			{gen.Ret(id()), gen.Ex(gen.Bi("-", gen.U("-", id()), gen.U("--", id())))},
+		}
+		for pi, prog := range progs {
+			c.Cur("identifier " + n)
+			for ci, cfg := range c03Cfgs {
+				c.Inc("print_parse_roundtrips")
+				c.Inc("identifier_roundtrips")
+				k, d, _ := c03Check(prog, cfg)
+				if k != "" && c.ShrinkOK("ident"+k) {
+					pl, _ := json.Marshal(c03Payload{Deep: []int{-4, ii, pi, ci}})
+					c.Violate(core.Violation{Kind: k, Config: cfg.String(), Case: "identifier spelling " + n + ": " + gen.ShapeProgram(prog), Detail: core.Short(d, 500), Payload: pl, Size: 12})
+				}
+			}
+		}
+	}
+}
+
 func c03Run(c *core.Ctx) {
+	c03Idents(c)
 	c03Trivia(c)
 	c03Branches(c)
 	c03MultiLine(c)
@@ -506,6 +540,10 @@ func c03Replay(pl json.RawMessage) (string, []core.Violation) {
 	var vs []core.Violation
 	if len(p.Deep) > 0 {
 		cx := core.NewCtx("C03", "thorough", 0, 0, 1, time.Now().Add(10*time.Minute))
+		if p.Deep[0] == -4 {
+			c03Idents(cx)
+			return "identifier family re-run", cx.Violations()
+		}
 		if p.Deep[0] == -3 {
 			c03Branches(cx)
 			return "brace-less body family re-run", cx.Violations()
@@ -543,7 +581,7 @@ func c03Replay(pl json.RawMessage) (string, []core.Violation) {
 func init() {
 	core.Register(&core.PropSpec{
 		ID: "C03", Level: "exploration",
-		Rule:     "every chain of 0..3 nested (constructor, operand position) contexts — 4 prefix, 2 postfix, 13 binary x 2 sides, 3 assignment x 2 sides, callee, arguments, member object, index, array/object elements, function body, explicit group — around each of 9 leaf kinds, built programmatically as ast nodes WITHOUT grouping nodes (callee/object positions call-level-or-tighter, assignment/update targets identifier or member, as the property states); each tree placed as expression statement, let initialiser and call argument; printed compact / pretty / pretty without semicolons, re-parsed by xjs, shapes compared, and printed again (fixed point). quick: depth 3 over operator representatives (one per level and role); thorough: all operators. non-trivial = tree in which a correct printer must add parentheses Added families: multi-line literal leaves in 10 statement places incl. return; edited trees (print, replace the operator of the root or inner binary node in place for every operator triple, print again, compare with a freshly built tree); long programmatic chains (left-deep, right-deep, zig-zag over 7 operator cycles) of 9..129 (513 thorough) nodes; brace-less bodies: 11 body positions of if/else/while/for (nested too) x 5 simple statements x 12 expression endings (every class of final byte incl. the } of object literals and function expressions) x 4 followers x in/outside a function.",
+		Rule:     "every chain of 0..3 nested (constructor, operand position) contexts — 4 prefix, 2 postfix, 13 binary x 2 sides, 3 assignment x 2 sides, callee, arguments, member object, index, array/object elements, function body, explicit group — around each of 9 leaf kinds, built programmatically as ast nodes WITHOUT grouping nodes (callee/object positions call-level-or-tighter, assignment/update targets identifier or member, as the property states); each tree placed as expression statement, let initialiser and call argument; printed compact / pretty / pretty without semicolons, re-parsed by xjs, shapes compared, and printed again (fixed point). quick: depth 3 over operator representatives (one per level and role); thorough: all operators. non-trivial = tree in which a correct printer must add parentheses Added families: multi-line literal leaves in 10 statement places incl. return; edited trees (print, replace the operator of the root or inner binary node in place for every operator triple, print again, compare with a freshly built tree); long programmatic chains (left-deep, right-deep, zig-zag over 7 operator cycles) of 9..129 (513 thorough) nodes; brace-less bodies: 11 body positions of if/else/while/for (nested too) x 5 simple statements x 12 expression endings (every class of final byte incl. the } of object literals and function expressions) x 4 followers x in/outside a function; identifier spellings (about 230) in 8 tree positions.",
 		Assume:   []string{"xjs's own parser (checked against ECMAScript by C02) is the reader"},
 		QuickSec: 300, ThorSec: 1800, Run: c03Run, Replay: c03Replay,
 		Evals: "print_parse_roundtrips", Nontriv: "trees_needing_parentheses",
